@@ -61,10 +61,8 @@ type CtlN<const N: usize> = KalmanController<NoAllocKalmanStorage<RecClock, N>, 
 type Ctl = CtlN<4>; // one clock: 2 rows
 
 // ------------------------------------------------------------------ queries
-/// `in_defect_region`: offset and frequency estimates differ (value or variance). The unchanged
-/// tree answers the frequency query with the offset estimate, so the frequency assertions are only
-/// made outside that region in `c43_query`; `c43_query_kf_frequency_is_offset` makes them inside.
-fn query(check_frequency_when_distinct: bool) {
+/// Offset and frequency estimates are independent symbolic bit patterns, variances from {4, 9}.
+fn query() {
     let off: f64 = kani::any();
     let frq: f64 = kani::any();
     let var_off_sel: bool = kani::any();
@@ -88,13 +86,9 @@ fn query(check_frequency_when_distinct: bool) {
         matches!(qo, Ok(v) if v.value.to_bits() == off.to_bits() && v.uncertainty == unc_off),
         "offset query reports the offset estimate and its standard deviation"
     );
-    let distinct = off.to_bits() != frq.to_bits() || var_off_sel != var_frq_sel;
-    if distinct == check_frequency_when_distinct {
-        let qf = ctl.clock_frequency(sys);
-        assert!(matches!(qf, Ok(v) if v.value.to_bits() == frq.to_bits()), "frequency query reports the frequency estimate");
-        assert!(matches!(qf, Ok(v) if v.uncertainty == unc_frq), "frequency query reports the frequency standard deviation");
-        kani::cover!(true, "frequency query checked");
-    }
+    let qf = ctl.clock_frequency(sys);
+    assert!(matches!(qf, Ok(v) if v.value.to_bits() == frq.to_bits()), "frequency query reports the frequency estimate");
+    assert!(matches!(qf, Ok(v) if v.uncertainty == unc_frq), "frequency query reports the frequency standard deviation");
     let unknown = ih::clock_id_from_raw(unknown_raw);
     if unknown != sys {
         assert!(ctl.clock_offset(unknown).is_err() && ctl.clock_frequency(unknown).is_err(), "queries for an unknown clock fail");
@@ -105,15 +99,16 @@ fn query(check_frequency_when_distinct: bool) {
 #[kani::proof]
 #[kani::unwind(6)]
 fn c43_query() {
-    query(false);
+    query();
 }
 
-/// Expected to FAIL (known-finding candidate): `KalmanController::clock_frequency` calls
-/// `filter.clock_offset`. Minimal variant of `query` (only the frequency query, estimates that
-/// differ in value or variance) so that the counterexample run with concrete playback stays small.
+/// Regression harness for the defect fixed in 7d1f9fc (`KalmanController::clock_frequency` called
+/// `filter.clock_offset`): with offset and frequency estimates that differ in value or variance the
+/// frequency query returns the frequency entry and its standard deviation. Minimal variant of
+/// `query` (fails on the pre-fix tree, counterexample replays natively).
 #[kani::proof]
 #[kani::unwind(6)]
-fn c43_query_kf_frequency_is_offset() {
+fn c43_query_distinct() {
     let off: f64 = kani::any();
     let frq: f64 = kani::any();
     let same_var: bool = kani::any();
@@ -131,6 +126,7 @@ fn c43_query_kf_frequency_is_offset() {
     let qf = ctl.clock_frequency(sys);
     assert!(matches!(qf, Ok(v) if v.value == frq), "frequency query reports the frequency estimate");
     assert!(matches!(qf, Ok(v) if v.uncertainty == if same_var { 2.0 } else { 3.0 }), "frequency query reports the frequency standard deviation");
+    kani::cover!(!same_var && off > 1.0 && frq < 0.0, "distinct value and variance");
 }
 
 // ------------------------------------------------------------------ steering
